@@ -51,6 +51,9 @@ pub enum Step {
     Respond(crate::c17::RespondSpec),
     /// a request is generated from an entropy string (C19)
     Generate(crate::c19::GenSpec),
+    /// soak: the same exchange `times` times in a row on a device that is never restarted
+    /// (state the code under test keeps between calls - counters, caches - crosses 8- and 16-bit limits)
+    Repeat { times: u64, step: Box<Step> },
 }
 
 fn expect_to_json(e: &DeliverExpect) -> J {
@@ -108,6 +111,7 @@ impl Step {
             Step::Dispatch(x) => x.to_json(),
             Step::Respond(x) => x.to_json(),
             Step::Generate(x) => x.to_json(),
+            Step::Repeat { times, step } => obj(vec![("op", s("repeat")), ("times", J::Int(*times as i64)), ("step", step.to_json())]),
         }
     }
 
@@ -134,6 +138,7 @@ impl Step {
             "dispatch" => Step::Dispatch(crate::c10::DispatchSpec::from_json(j)?),
             "respond" => Step::Respond(crate::c17::RespondSpec::from_json(j)?),
             "generate" => Step::Generate(crate::c19::GenSpec::from_json(j)?),
+            "repeat" => Step::Repeat { times: j.get("times")?.int()? as u64, step: Box::new(Step::from_json(j.get("step")?)?) },
             _ => return None,
         })
     }
@@ -157,6 +162,17 @@ impl Step {
             Step::Dispatch(x) => x.shrinks().into_iter().map(Step::Dispatch).collect(),
             Step::Respond(x) => x.shrinks().into_iter().map(Step::Respond).collect(),
             Step::Generate(x) => x.shrinks().into_iter().map(Step::Generate).collect(),
+            Step::Repeat { times, step } => {
+                // first the exchange once (if that still fails no history is needed), then fewer repetitions, then a smaller exchange
+                let mut v = vec![(**step).clone()];
+                for t in [300u64, 65_540] {
+                    if t < *times {
+                        v.push(Step::Repeat { times: t, step: step.clone() });
+                    }
+                }
+                v.extend(step.shrinks().into_iter().take(24).map(|x| Step::Repeat { times: *times, step: Box::new(x) }));
+                v
+            }
             _ => vec![],
         }
     }
@@ -289,6 +305,9 @@ pub struct Device {
     pub last_outcome: String,
     /// C04: outcome of the first delivery of each distinct message in this session (keyed by content hash)
     pub seen: std::collections::BTreeMap<(u64, usize), String>,
+    /// C17: the reference encoding of each distinct response of this session (computed at its first use only,
+    /// so that reference calls do not sit between every two calls under test)
+    pub refs: std::collections::BTreeMap<u64, Vec<u8>>,
 }
 
 impl Device {
@@ -306,6 +325,7 @@ impl Device {
             u2f: Default::default(),
             last_outcome: String::new(),
             seen: Default::default(),
+            refs: Default::default(),
         }
     }
 
@@ -495,6 +515,20 @@ pub fn exec(dev: &mut Device, step: &Step, prop: Prop, log: &mut Log) -> Option<
         Step::Dispatch(x) => crate::c10::exec(dev, x, log),
         Step::Respond(x) => crate::c17::exec(dev, x, log),
         Step::Generate(x) => crate::c19::exec(dev, x, log),
+        Step::Repeat { times, step } => {
+            for i in 0..*times {
+                // the first repetition is logged in full, the others only if something fires
+                let mut quiet = Log::new(false);
+                let f = if i == 0 { exec(dev, step, prop, log) } else { exec(dev, step, prop, &mut quiet) };
+                if let Some(mut f) = f {
+                    log.event(&format!("repeat: finding at repetition {} of {}", i + 1, times));
+                    f.detail = format!("{} [repetition {} of {} of the same exchange on a device that is never restarted]", f.detail, i + 1, times);
+                    return Some(f);
+                }
+            }
+            log.event(&format!("repeat: {} repetitions done", times));
+            None
+        }
     }
 }
 
